@@ -7,5 +7,7 @@ CONSTANTS
   RegisterFirst = TRUE
   OldDelDeletedEarly = FALSE
   GcProtectsBuilding = TRUE
+  MaxFaults = 1
+  StoreMetaFirst = FALSE
 INVARIANT CrashSafe
 CHECK_DEADLOCK FALSE
